@@ -20,6 +20,42 @@ Theorem C25_schedule_exact : forall (X : Type) (content : nat -> list X) (l : li
 Proof. exact @schedule_ranges_exact. Qed.
 Print Assumptions C25_schedule_exact.
 
+(* ---- sorted indices -> ranges ---------------------------------------------------------------- *)
+
+(* take: EVERY sorted (non-strict: a row may be asked for repeatedly) in-bounds index list is
+   turned into a request that lies in the domain of C25_schedule_exact and whose rows are the
+   indexed rows in request order; together with C25_schedule_exact: the pages deliver exactly
+   [rows_at l idx].  (_partial as a statement about the file: the repeated rows reach a page as
+   overlapping page-local ranges, and that the page decoder serves those is an assumption on the
+   page layer - false for 2.0 variable-width pages, class Known_C25_v20_take_repeats_first_row_of_page.) *)
+Theorem C25_take_indices_partial : forall (X : Type) (content : nat -> list X) (l : list X) (ps : list N) (i0 : N) (rest : list N),
+  pages_at content l 0 0 ps -> nsum ps = nlen l ->
+  sorted_from i0 rest -> Forall (fun i => i < nlen l) (i0 :: rest) ->
+  exists rs lines, indices_to_ranges (i0 :: rest) = Ok rs /\ schedule_ranges ps rs = Ok lines /\
+    concat (map (line_rows content) lines) = rows_at l (i0 :: rest).
+Proof.
+  intros X content l ps i0 rest Hp Hsum Hs Hb.
+  destruct (indices_to_ranges_exact l i0 rest Hs Hb) as (rs & H1 & H2 & H3 & H4).
+  rewrite <- Hsum in H3.
+  destruct (schedule_ranges_exact content l ps rs Hp H2 H3) as (lines & H5 & H6).
+  exists rs, lines. split; [exact H1|]. split; [exact H5|]. now rewrite H6.
+Qed.
+Print Assumptions C25_take_indices_partial.
+
+(* full read = the data: the request [0, n) over any page layout delivers l *)
+Theorem C25_full_read : forall (X : Type) (content : nat -> list X) (l : list X) (ps : list N),
+  pages_at content l 0 0 ps -> nsum ps = nlen l -> 0 < nlen l ->
+  exists lines, schedule_ranges ps [(0, nlen l)] = Ok lines /\
+    concat (map (line_rows content) lines) = l.
+Proof.
+  intros X content l ps Hp Hsum Hpos.
+  destruct (schedule_ranges_exact content l ps [(0, nlen l)] Hp) as (lines & H1 & H2).
+  - cbn [chain]. split; [exact Hpos | split; exact I].
+  - constructor; [cbn [snd]; lia | constructor].
+  - exists lines. split; [exact H1|]. rewrite H2. cbn [map concat]. rewrite app_nil_r. apply slice_all.
+Qed.
+Print Assumptions C25_full_read.
+
 (* ---- footer --------------------------------------------------------------------------------- *)
 
 (* parse (serialize f) = f for all field values in range (u64 / u32 / u16), whatever precedes the
